@@ -1,4 +1,5 @@
 mod drive;
+mod elem;
 mod fixed;
 mod generic;
 mod interp;
@@ -49,6 +50,8 @@ fn main() {
                 "C17" => drive::suite_c17(&mut ctx),
                 "C04" => qdrive::suite_c04(&mut ctx),
                 "C18" => poly::suite_c18(&mut ctx),
+                "C11" => elem::suite_c11(&mut ctx),
+                "C15" => elem::suite_c15(&mut ctx),
                 "C19" => randsuite::suite_c19(&mut ctx),
                 "C12" => qdrive::suite_c12(&mut ctx),
                 _ => {
